@@ -1035,14 +1035,15 @@ func matchSelectorToMetric(selector *promParser.VectorSelector, metric string) (
 		var isMatch bool
 		for _, s := range selector.LabelMatchers {
 			if s.Type == l.Type && s.Name == l.Name && s.Value == l.Value {
-				return true, true
+				isMatch = true
+				break
 			}
 		}
 		if !isMatch {
 			return false, true
 		}
 	}
-	return false, true
+	return true, true
 }
 
 func parseRuleSet(s string) (matcher, key, value string) {
